@@ -62,6 +62,7 @@ type Stats struct {
 type Output struct {
 	Stats      Stats          `json:"stats"`
 	Violations []ViolationRec `json:"violations"`
+	Findings   []ViolationRec `json:"findings"`
 	Real       []string       `json:"real"`
 	Stub       []string       `json:"stub"`
 	Error      string         `json:"error,omitempty"`
@@ -116,6 +117,7 @@ func main() {
 	if *logRuns != "" {
 		evlog, _ = os.Create(*logRuns)
 	}
+	findingSeen := map[string]bool{}
 	idx := *from
 	for ; idx < *to; idx++ {
 		if time.Now().After(deadline) {
@@ -165,6 +167,13 @@ func main() {
 			if c.steps > longest.steps {
 				longest = c
 			}
+		}
+		for _, f := range res.Findings {
+			if !findingSeen[f.Clause] {
+				findingSeen[f.Clause] = true
+				out.Findings = append(out.Findings, ViolationRec{Property: *prop, World: *world, Seed: *seed, Run: idx, Clause: f.Clause, Msg: f.Msg, Summary: res.Summary, Choices: res.Rec, OrigLen: len(res.Rec), Stable: true})
+			}
+			st.Probes["finding:"+f.Clause]++
 		}
 		if res.Viol != nil && *noShrink {
 			out.Violations = append(out.Violations, ViolationRec{Property: *prop, Run: idx, Clause: res.Viol.Clause, Msg: res.Viol.Msg, Stable: true})
@@ -416,6 +425,13 @@ func doReplay(w worlds.World, world, prop, file string) int {
 	o.Diverged = res.Overrun > 0 || len(res.Rec) != len(rf.Choices)
 	if res.Viol != nil {
 		o.Clause, o.Msg = res.Viol.Clause, res.Viol.Msg
+	} else {
+		for _, f := range res.Findings {
+			if f.Clause == rf.Clause {
+				o.Clause, o.Msg = f.Clause, f.Msg
+				res.Viol = &zsim.Violation{Clause: f.Clause, Msg: f.Msg}
+			}
+		}
 	}
 	json.NewEncoder(os.Stdout).Encode(o)
 	if res.Viol != nil && res.Viol.Clause == rf.Clause {
